@@ -14,7 +14,8 @@ LAYERS = ["json"]
 
 def run(ctx, res):
     P = ctx.P
-    reach, inv = PI.run(ctx, res, LAYERS, floor_fns=570, floor_sites=370)
+    PI.valstack_writers(P, res)
+    reach, inv = PI.run(ctx, res, LAYERS, floor_fns=575, floor_sites=370)
     f = P.require_fn("json_session::handle_request_in_worker")
     # ---- RESPONSE-ONCE: count print_as_json events on every path entry -> return
     ev = {}
